@@ -66,6 +66,16 @@ def field_updates(bv, W, names=None, _depth=0, _subst=None):
                     pre.append(str(a_[2]))
                 a_ = a_[1]
             ch_ = pre[::-1] + ch_
+        elif p.get("p") and p["p"][0]["k"] == "deref" and p["l"] > bv.argc:
+            # a write through a local `&mut` borrow (what is left of a helper that was inlined): the field it points at
+            a_ = bv.trace_local(p["l"])
+            if a_[0] == "ref":
+                pre = []
+                while a_[0] in ("ref", "deref", "field"):
+                    if a_[0] == "field":
+                        pre.append(str(a_[2]))
+                    a_ = a_[1]
+                ch_ = pre[::-1] + ch_
         chain = ".".join(ch_)
         val = rd(bv._trace_rv(r, None, 0)) if r["k"] != "callret" else "undef"
         gs = []
@@ -209,6 +219,26 @@ def run(F, R):
                                 eqE.append((sb, tg))
             ok_eq = len(eq_terms) == 1 and all(".id" in t and ".app_id" in t and ("eq(" in t or "Eq(" in t) or (".id" in t and ".app_id" in t and not t.startswith("|")) for t in eq_terms)
             R.check("C09-R2", "guard-is-id-equality", ok_eq, str(sorted(eq_terms)), "the routing guard is not app.id == app_response.app_id: %s" % sorted(eq_terms))
+            # every app is matched against *all* responses: the iterator that is searched is created inside the per-app loop
+            # (one iterator shared by all apps hands a later app only what the search for an earlier one left over)
+            scans = []
+            for sbi_ in sorted(outer):
+                st_ = bv.blocks[sbi_]["t"]
+                if st_["k"] != "call" or st_.get("name") not in ("next", "find", "find_map", "position", "any", "all", "nth", "skip_while", "take_while") or not st_.get("argt"):
+                    continue
+                rty_ = c.types[st_["argt"][0]]["s"] if isinstance(st_["argt"][0], int) else ""
+                if "AppResponse" not in rty_ or "iter_mut_apps" in fmt_t(bv.trace_op(st_["args"][0]))[:400]:
+                    continue
+                # the local the `&mut` receiver points at, and where that local is created
+                recv_ = [s2_["r"]["p"]["l"] for s2_ in bv.blocks[sbi_]["s"] if s2_["k"] == "assign" and s2_["r"]["k"] == "ref" and s2_["r"].get("m") and not s2_["r"]["p"].get("p")]
+                for l_ in recv_[-1:]:
+                    made_ = [dbi_ for (dbi_, dsi_, kind_, x_) in bv.defs.get(l_, []) if dbi_ in bv.reach0]
+                    scans.append((sbi_, l_, made_))
+            if scans:
+                shared_ = [(sbi_, l_) for (sbi_, l_, made_) in scans if made_ and not any(m_ in outer for m_ in made_)]
+                R.check("C09-R2", "responses-rescanned-per-app", not shared_, "the responses are searched from the first one for every app (%d scan site(s))" % len(scans),
+                        "the responses are searched with one iterator shared by all apps: an app that comes after another in the set only sees the responses the earlier search left over",
+                        lib.loc(bv, shared_[0][0]) if shared_ else None)
             upd = [bi for bi, t in bv.calls() if lib.callee_is(t, "protocol::Cohort::update_from_omaha")]
             ucw = [bi for (bi, si, p, r) in bv.field_writes if bi in bv.reach0 and smod._chain(p)[-1:] == ["user_counting"]]
             R.check("C09-R2", "updates-under-guard", upd and ucw and all(bv.dominated_by_edge(x, eqE) for x in upd + ucw), "cohort merge and user_counting assignment only for the matching app",
@@ -274,13 +304,12 @@ def run(F, R):
                     # resolve the captured daystart in the parent
                     par = W.bv(b["parent"]) if b.get("parent") else None
                     cap = ""
-                    if par is not None and uc == "param1.0":
-                        for x in walk(par.trace_local(0)):
-                            pass
+                    m_cap = re.fullmatch(r"param1\.(\d+)", uc)      # a captured variable, whatever its position among the captures
+                    if par is not None and m_cap:
                         for pb in par.reach0:
                             for ps in par.blocks[pb]["s"]:
-                                if ps["k"] == "assign" and ps["r"]["k"] == "agg" and ps["r"].get("id") == b["id"]:
-                                    cap = terms.render(par, par.trace_op(ps["r"]["ops"][0]), W, {})
+                                if ps["k"] == "assign" and ps["r"]["k"] == "agg" and ps["r"].get("id") == b["id"] and int(m_cap.group(1)) < len(ps["r"]["ops"]):
+                                    cap = terms.render(par, par.trace_op(ps["r"]["ops"][int(m_cap.group(1))]), W, {})
                     # built directly in the flow (a `for` loop instead of map+collect): the value itself is the daystart
                     direct = uc
                     while True:
@@ -288,7 +317,7 @@ def run(F, R):
                         if not m_w:
                             break
                         direct = m_w.group(1)
-                    R.check("C09-R3", "daystart:" + (W.by_id[b["parent"]]["item"] if b.get("parent") and W.by_id[b["parent"]].get("item") else b["id"].split("::")[-3]), (uc == "param1.0" and cap.endswith(".daystart")) or (direct.endswith(".daystart") and "parse_omaha_response(" in direct),
+                    R.check("C09-R3", "daystart:" + (W.by_id[b["parent"]]["item"] if b.get("parent") and W.by_id[b["parent"]].get("item") else b["id"].split("::")[-3]), (bool(m_cap) and cap.endswith(".daystart")) or (direct.endswith(".daystart") and "parse_omaha_response(" in direct),
                             "user_counting <- response.daystart", "AppResponse.user_counting <- %s (%s)" % (uc, cap[-60:]), lib.loc(v, bi))
     R.floor("C09-R3", "AppResponse constructors", n, 2)
     fr = [b for b in lib.bodies(c, item="from", impl_self="common::UserCounting", impl_trait="std::convert::From")]
